@@ -13,6 +13,9 @@ import time
 import subprocess
 
 VERIF = os.path.dirname(os.path.dirname(os.path.abspath(__file__)))
+# RECHECK_REPO=<scratch worktree or snapshot of /repo at HEAD>: patches are applied there and the checks import the library from it
+# (VERIF_REPO); default: /repo itself (then never run while another check is running)
+TARGET = os.environ.get('RECHECK_REPO', '/repo')
 
 
 def sh(cmd, cwd=None, timeout=7200):
@@ -25,9 +28,9 @@ def main():
     names = sorted(d for d in os.listdir(os.path.join(VERIF, 'seeded')) if os.path.isdir(os.path.join(VERIF, 'seeded', d)) and not d.startswith('_'))
     if sel:
         names = [n for n in names if any(n.startswith(s) for s in sel)]
-    rc, out = sh('git status --porcelain --untracked-files=no', '/repo')
+    rc, out = sh('git status --porcelain --untracked-files=no', TARGET)
     if out.strip():
-        print('/repo is not clean, refusing:', out)
+        print(TARGET + ' is not clean, refusing:', out)
         return 2
     summary = {}
     sp = os.path.join(VERIF, 'seeded', 'SUMMARY.json')
@@ -43,7 +46,7 @@ def main():
             if tier == 'quick' and v['exit'] == 1 and cid not in checks:
                 checks.append(cid)
         patch = os.path.join(d, 'patch.diff')
-        rc, out = sh('git apply %s || git apply -C1 %s' % (patch, patch), '/repo')
+        rc, out = sh('git apply %s || git apply -C1 %s' % (patch, patch), TARGET)
         if rc:
             summary[n] = {'error': 'patch does not apply: ' + out[-200:]}
             print(n, 'PATCH DOES NOT APPLY')
@@ -52,15 +55,16 @@ def main():
         t0 = time.time()
         try:
             for cid in checks:
-                rcc, outc = sh('./check %s --tier quick' % cid, VERIF)
+                rcc, outc = sh('VERIF_REPO=%s ./check %s --tier quick' % (TARGET, cid), VERIF)
                 keys = [l.strip()[4:] for l in outc.splitlines() if l.startswith('  key=')]
                 res[cid] = {'exit': rcc, 'n_new_keys': len(keys), 'example': keys[:2]}
                 if rcc == 1 and cid == own:
                     break
         finally:
-            sh('git checkout -- .', '/repo')
+            sh('git checkout -- .', TARGET)
         caught = [c for c, r in res.items() if r['exit'] == 1]
         summary[n] = {'checks': res, 'caught_by': caught, 'wall_s': round(time.time() - t0, 1)}
+        json.dump(summary, open(sp + '.partial', 'w'), indent=1, sort_keys=True)
         print('%-7s %s  %s' % (n, 'caught by ' + ','.join(caught) if caught else 'MISSED', {c: (r['exit'], r['n_new_keys']) for c, r in res.items()}), flush=True)
     json.dump(summary, open(sp, 'w'), indent=1, sort_keys=True)
     missed = [n for n, v in summary.items() if not v.get('caught_by')]
